@@ -42,7 +42,11 @@ def run(ctx: Context) -> None:
             alts = [_re.sub(r"\b(\w+)=\1\b", r"\1", norm(a).replace("await", "")) for a in ctx.prov.expand(c.args[1], sd, c)] if len(c.args) > 1 else []
             want = "data[:min(len(data),self._wait_for_outgoing_flow(request,stream_id))]"
             # a slice is bounded by its upper index whether or not len(data) is folded into it
-            wants = (want, "data[:self._wait_for_outgoing_flow(request,stream_id)]")
+            wants = [want, "data[:self._wait_for_outgoing_flow(request,stream_id)]"]
+            # ... or bounded by a window read made in the routine itself (after the wait, e.g. again under a send lock): min(window of this stream, frame size)
+            W_, F_ = "self._h2_state.local_flow_control_window(stream_id)", "self._h2_state.max_outbound_frame_size"
+            for b_ in (f"min({W_},{F_})", f"min({F_},{W_})"):
+                wants += [f"data[:min(len(data),{b_})]", f"data[:min({b_},len(data))]", f"data[:{b_}]"]
             ok = bool(alts) and all(a.replace("__loop__data", "data") in wants for a in alts) and norm(c.args[0]) == "stream_id"
             rep.ob("C13.R1", fkey(tree, sd, "bounded-chunk"), ok, where(sd, c), f"send_data(stream_id, {alts})" + ("" if ok else f" - must be {want}: more than the window / frame size may be sent"))
         rets = [r for r in own_nodes(wf.node) if isinstance(r, ast.Return) and r.value is not None]
@@ -110,10 +114,18 @@ def run(ctx: Context) -> None:
             cfg = ctx.cfg(sd)
             start = [n for n in cfg.nodes if node_calls(n, lambda c: norm(c.func) == "self._wait_for_outgoing_flow")]
             end = [n for n in cfg.nodes if node_calls(n, lambda c: norm(c.func) == "self._h2_state.send_data")]
+            # a window read made by the routine itself after the wait (and dominating the send) is the read that counts
+            own_reads = [n for n in cfg.nodes if n.kind == "stmt" and node_calls(n, lambda c: norm(c.func) == "self._h2_state.local_flow_control_window")]
+            if own_reads and end and all(cfg.dominates(n, end[0]) for n in own_reads):
+                start = own_reads[-1:]
             between = []
             if start and end:
-                r1 = cfg.reachable([e.dst for e in start[0].succ if e.kind != "exc"], follow=lambda e: e.kind != "exc", stop=lambda n: n is end[0])
-                between = [n for n in cfg.nodes if n.id in r1 and n is not end[0] and n.may_cancel()]
+                # a path that comes round to the window read again starts afresh there
+                r1 = cfg.reachable([e.dst for e in start[0].succ if e.kind != "exc"], follow=lambda e: e.kind != "exc", stop=lambda n: n is end[0] or n is start[0])
+                between = [n for n in cfg.nodes if n.id in r1 and n is not end[0] and n is not start[0] and n.may_cancel()]
+                if between:
+                    # only nodes from which the send is still reachable without passing the read again
+                    between = [n for n in between if end[0].id in cfg.reachable([n], follow=lambda e: e.kind != "exc", stop=lambda m: m is start[0])]
             rep.ob("C13.R2", fkey(tree, sd, "atomic-send"), bool(start) and bool(end) and not between, where(sd), "no suspension point between obtaining the flow value and send_data" if not between else f"suspension point {between[0].text()} between the window read and send_data")
             cfg2 = ctx.cfg(wf)
             awaits = [n for n in cfg2.nodes if n.may_cancel()]
